@@ -29,12 +29,11 @@ def build_sum_amplitude(dg, dec_chain, data):
 
 def build_int_matrix(dec, data, weight=None):
     hij = {}
-    used_chains = dec.chains_idx
-    for k, i in enumerate(dec):
-        dec.set_used_chains([k])
-        for j, amp in enumerate(build_sum_amplitude(dec, i, data)):
-            hij[(i, j)] = amp
-    dec.set_used_chains(used_chains)
+    with dec.keep_used_chains():
+        for k, i in enumerate(dec):
+            dec.set_used_chains([k])
+            for j, amp in enumerate(build_sum_amplitude(dec, i, data)):
+                hij[(i, j)] = amp
     ret = []
     if weight is None:
         weight = data.get("weight", 1.0)
